@@ -96,7 +96,7 @@ pub enum Op {
     ArmFuel { kind: u8, idx: u16 },
     /// drain(), `n` calls (bit i of `bits`: 1 = next, 0 = next_back), then
     /// mem::forget the iterator
-    DrainForget { n: u8, bits: u16 },
+    DrainForget { n: u8, bits: u64 },
 }
 
 impl Op {
@@ -796,7 +796,7 @@ pub fn op_from_json(v: &Value) -> Option<Op> {
         "Contains" => Op::Contains { k: n("k")? as u16, b: b("b")? },
         "DebugFmt" => Op::DebugFmt,
         "ArmFuel" => Op::ArmFuel { kind: n("kind")? as u8, idx: n("idx")? as u16 },
-        "DrainForget" => Op::DrainForget { n: n("n")? as u8, bits: n("bits")? as u16 },
+        "DrainForget" => Op::DrainForget { n: n("n")? as u8, bits: n("bits")? },
         _ => return None,
     })
 }
